@@ -328,7 +328,9 @@ Section Cfg.
   | CReset (k : str)                              (* reset_value *)
   | CAppend (k : str) (x : pyval)                 (* cfg.k.append(x) on a list of configurations *)
   | CSetIdx (k : str) (i : nat) (x : pyval)       (* cfg.k[i] = x *)
-  | CValidate (collect : bool).                   (* cfg.validate(collect_errors) *)
+  | CValidate (collect : bool)                    (* cfg.validate(collect_errors) *)
+  | CLoads (parsed : res pyval).                  (* cfg.loads(document, format): what the format's parser made of the document
+                                                     (the parser is not code of this repository); include fields: Tree.v *)
 
   Fixpoint set_nth_cfg (i : nat) (x : cfg) (l : list cfg) : list cfg :=
     match l, i with
@@ -362,6 +364,14 @@ Section Cfg.
     | CSet k x => set_value x w pre c fs dynamic k false
     | CLoad t v => load_tree t v w pre c dynamic vs fs
     | CReset k => reset_key w c fs k
+    | CLoads parsed =>
+        (* tree = formatter.loads(self, content); tree = self._process_includes(...); self.load_tree(tree):
+           a document that does not parse never reaches load_tree *)
+        match parsed with
+        | Ok t => load_tree t true w pre c dynamic vs fs
+        | Err e => (w, c, OErr e)
+        | Unmodelled => (w, c, OUnm)
+        end
     | CValidate collect =>
         let errs := validate_errs (NSub dynamic vs fs) pre (VCfg c) in
         (w, c, if collect then OErrs errs else match errs with [] => OOk | e :: _ => OErr e end)
